@@ -71,8 +71,12 @@ func (f *frame) loopEnv(li *loopInfo, phiVals map[*ssa.Phi]Val, st *State) *TEnv
 		}
 		if p.Comment != "" && p.Comment != "rangeindex" {
 			if pv, ok := phiVals[p]; ok {
-				if _, shadow := env.vars[p.Comment]; !shadow || true {
-					env.vars[p.Comment] = TV{pv, p.Type()}
+				pname := p.Comment
+				if old, was := f.renamed[pname]; was {
+					pname = old
+				}
+				if _, shadow := env.vars[pname]; !shadow || true {
+					env.vars[pname] = TV{pv, p.Type()}
 				}
 			}
 		}
